@@ -491,12 +491,22 @@ pub fn exec_special(ctx: &mut Ctx, ex: &mut Extra, hist: &mut Vec<String>, toks:
             });
             let mut moves: Vec<String> = vec![];
             let mut clocks: Vec<String> = vec![];
+            let mut scores: Vec<String> = vec![];
             let mut end = "limit".to_string();
             for l in out.lines() {
                 if let Some(rest) = l.strip_prefix("Last move: ") {
                     moves.push(rest.trim().to_string());
                 } else if let Some(rest) = l.strip_prefix("* Halfmove clock: ") {
                     clocks.push(rest.trim().to_string());
+                } else if let Some(rest) = l.strip_prefix("* Score: ") {
+                    scores.push(rest.trim().to_string());
+                } else if let Some(rest) = l.strip_prefix("* Positions searched: ") {
+                    // "0 (book move: ..)" = the move came from the book: the score shown is not this move's
+                    if rest.trim_start().starts_with("0 ") {
+                        if let Some(last) = scores.last_mut() {
+                            *last = "-".to_string();
+                        }
+                    }
                 } else if l == "checkmate!" || l == "stalemate!" || l == "draw!" {
                     end = l.trim_end_matches('!').to_string();
                 } else if let Some(rest) = l.strip_prefix("error: ") {
@@ -506,7 +516,10 @@ pub fn exec_special(ctx: &mut Ctx, ex: &mut Extra, hist: &mut Vec<String>, toks:
             if res.is_err() {
                 end = "PANIC".to_string();
             }
-            let mv: Vec<String> = moves.iter().zip(clocks.iter()).map(|(m, c)| format!("{}/{}", m, c)).collect();
+            while scores.len() < moves.len() {
+                scores.push("-".to_string());
+            }
+            let mv: Vec<String> = moves.iter().zip(clocks.iter()).zip(scores.iter()).map(|((m, c), sc)| format!("{}/{}/{}", m, c, sc)).collect();
             let mut s = format!("watch {} {}", end, mv.join(" "));
             if end.starts_with("error") || end == "PANIC" {
                 s.push_str(&format!("\n! C15 the watch loop (depth {}) ended with {} after {} moves", d, end, moves.len()));
